@@ -630,6 +630,10 @@ func c20AccessorsPlain(c *Ctx) {
 		if sf.Signature.Params().Len() != 0 || sf.Signature.Results().Len() != 1 || sf.Name() == "String" || strings.HasPrefix(sf.Name(), "is") {
 			continue
 		}
+		// the accessors are what the interface offers to the printers; unexported helpers of String() are part of String()
+		if !token.IsExported(sf.Name()) {
+			continue
+		}
 		plain := true
 		for _, r := range returnsOf(sf) {
 			v := stripConv(r.Results[0])
@@ -1474,16 +1478,62 @@ func c01TargetWalkTargeted(c *Ctx) {
 	}
 	sf := p.SSAFunc(fr.Obj)
 	targeted, full := false, []string{}
+	hasOpt := func(cc *ssa.CallCommon) bool {
+		o := staticCalleeObj(cc)
+		return o != nil && o.Name() == "WalkFileInfosWithOnlyTargetFiles"
+	}
+	// the entry point, its literals, and the package's own helpers it calls directly
+	type rooted struct{ f, root *ssa.Function }
+	var funcs []rooted
 	for _, f := range allSSAFuncs(sf) {
+		funcs = append(funcs, rooted{f, sf})
+	}
+	for _, ec := range callsIn(sf) {
+		if h := ec.Call.StaticCallee(); h != nil && h.Pkg == sf.Pkg && h != sf && h.Name() != "GetFileInfos" && len(h.Blocks) > 0 {
+			for _, f := range allSSAFuncs(h) {
+				funcs = append(funcs, rooted{f, h})
+			}
+		}
+	}
+	for _, rf := range funcs {
+		f := rf.f
 		for _, call := range callsIn(f) {
 			if call.Call.IsInvoke() && call.Call.Method.Name() == "WalkFileInfos" {
 				ok := false
 				for _, a := range call.Call.Args {
-					if dependsOnCall(a, func(cc *ssa.CallCommon) bool {
-						o := staticCalleeObj(cc)
-						return o != nil && o.Name() == "WalkFileInfosWithOnlyTargetFiles"
-					}) {
+					if dependsOnCall(a, hasOpt) {
 						ok = true
+					}
+				}
+				if !ok && rf.root != sf && f == rf.root {
+					// the options are a parameter of a shared helper: the entry point's call to it supplies them
+					for _, a := range call.Call.Args {
+						sliceBack(a, func(x ssa.Value) bool {
+							par, isPar := x.(*ssa.Parameter)
+							if !isPar || par.Parent() != f {
+								return true
+							}
+							idx := -1
+							for i, fp := range f.Params {
+								if fp == par {
+									idx = i
+								}
+							}
+							nCalls, nOpt := 0, 0
+							for _, ec := range callsIn(sf) {
+								if ec.Call.StaticCallee() != f || idx < 0 || idx >= len(ec.Call.Args) {
+									continue
+								}
+								nCalls++
+								if dependsOnCall(ec.Call.Args[idx], hasOpt) {
+									nOpt++
+								}
+							}
+							if nCalls > 0 && nCalls == nOpt {
+								ok = true
+							}
+							return true
+						})
 					}
 				}
 				if ok {
@@ -1670,6 +1720,23 @@ func c06AnnotationJudgedAlone(c *Ctx, pk *packages.Package) {
 				}
 			}
 			c.Ob(rule, ssaFuncName(sf)+"/predicate", call.Pos(), len(writes) == 0, true, "the predicate writes nothing it captured (%v)", uniq(writes))
+		}
+	}
+	if n == 0 {
+		// the hand-written form: a loop that appends the kept annotations
+		for _, sf := range p.SSAFuncsOf([]*packages.Package{pk}) {
+			if sf.Signature.Results().Len() == 0 {
+				continue
+			}
+			sl, ok := sf.Signature.Results().At(0).Type().Underlying().(*types.Slice)
+			if !ok || !strings.HasSuffix(namedPath(derefType(sl.Elem())), "bufcheck.annotation") {
+				continue
+			}
+			if loop := findAnnFilterLoop(sf); loop != nil && loop.OnlyInput {
+				n++
+				st := loop.stateful()
+				c.Ob(rule, ssaFuncName(sf)+"/predicate", sf.Pos(), len(st) == 0, true, "whether an annotation is appended does not depend on earlier iterations (%v)", st)
+			}
 		}
 	}
 	if n == 0 {
